@@ -9,11 +9,11 @@ def load(name):
     return [l.rstrip("\n") for l in open(f) if l.strip() and not l.startswith("#")]
 
 
-WITNESS = {}   # no witness-identified open finding at the moment (D21 was the first; fixed in da73ac0)
+WITNESS = {("C07", "D20"): "kf-C07-D20-with-properties-under-a-newer-scope.txt"}   # (D21 was the first; fixed in da73ac0)
 
 
-def case(prop, fid, oracles):
-    return ("kf/%s-witness" % fid, load(WITNESS[(prop, fid)]), oracles)
+def case(prop, fid, oracles, with_model=True):
+    return ("%s/%s-witness" % ("kf" if with_model else "nomodel/kf", fid), load(WITNESS[(prop, fid)]), oracles)
 
 
 def known(prop, fid):
